@@ -58,6 +58,9 @@ var configs = []*Config{
 	{Name: "prelease", Tier: "quick", Events: []string{evSubA, evSubW, evClose1, evLease2}, PreLease: true, FetchErrs: 1, Budgets: "0,0;1,0;0,1", ThoroughBudgets: bQ + "|2,1"},
 	// --- announcements: version update, latest validated manifest
 	{Name: "update-latest", Tier: "quick", Events: []string{evLease1, evSubA, evUpdate, evSubB, evLease2}, Budgets: "0,0;1,0|0,1/2", ThoroughBudgets: bT5 + "|2,1/4"},
+	// the on-chain version returns to an earlier value (A -> B -> A): the announcement after the third acceptance must carry the third accepted manifest
+	{Name: "version-returns", Tier: "quick", Events: []string{evLease1, evSubA, evUpdate, evSubB, evUpdateA, evSubA2}, Budgets: "0,0/2|1,0/2", ThoroughBudgets: "0,0/2|1,0/4|0,1/8"},
+	{Name: "version-returns-lease2", Tier: "thorough", Events: []string{evLease1, evSubA, evUpdate, evSubB, evUpdateA, evSubA2, evLease2}, ThoroughBudgets: "0,0/8"},
 	{Name: "update-3sub", Tier: "quick", Events: []string{evLease1, evSubA, evUpdate, evSubB, evSubA2}, FetchErrs: 1, Budgets: "0,0;1,0|0,1/3", ThoroughBudgets: bT5},
 	// --- a second manager after the deployment was closed
 	{Name: "reincarnate", Tier: "quick", Events: []string{evLease1, evSubA, evDClosed, evLease2, evSubA2}, Budgets: "0,0;1,0|0,1/2", ThoroughBudgets: bT5},
@@ -102,6 +105,36 @@ func familyConfigs(family string) []*Config {
 		return c10vConfigs
 	}
 	return configs
+}
+
+// Provider-record spelling as a configuration dimension: every quick configuration that contains a
+// lease-closed event is also run with the provider record's owner spelled in upper-case bech32 (same
+// account; all event ids canonical), with a reduced budget ladder.
+func init() {
+	var extra []*Config
+	for _, c := range configs {
+		closes := false
+		for _, e := range c.Events {
+			if e == evClose1 || e == evClose2 {
+				closes = true
+			}
+		}
+		if !closes || len(c.Events) > 5 {
+			continue
+		}
+		u := *c
+		u.Name = c.Name + "-upper"
+		u.UpperOwner = true
+		u.Budgets, u.ThoroughBudgets = "0,0;1,0", "0,0;1,0;0,1"
+		if len(c.Events) <= 3 {
+			u.Budgets, u.ThoroughBudgets = bQ, bQ+"|2,2"
+		}
+		if c.Tier != "quick" {
+			u.Budgets = ""
+		}
+		extra = append(extra, &u)
+	}
+	configs = append(configs, extra...)
 }
 
 func findConfig(name string) *Config {
@@ -682,7 +715,7 @@ func doParent(family, tier string, nworkers int, only, budgetStr string, d time.
 			}
 		}
 		perConfig[wo.Config+" "+groups[i]] = map[string]interface{}{
-			"events": cfg.Events, "fetch_errors": cfg.FetchErrs, "hostname_async": cfg.HostAsync, "hostname_rejections": cfg.HostErrs, "watchdog": cfg.Watchdog, "preexisting_lease": cfg.PreLease, "chain_version_of_invalid_manifest": cfg.ChainInvalid,
+			"events": cfg.Events, "fetch_errors": cfg.FetchErrs, "hostname_async": cfg.HostAsync, "hostname_rejections": cfg.HostErrs, "watchdog": cfg.Watchdog, "preexisting_lease": cfg.PreLease, "provider_owner_upper_case": cfg.UpperOwner, "chain_version_of_invalid_manifest": cfg.ChainInvalid,
 			"budgets_requested": groups[i], "budgets_completed": st.BudgetsCompleted,
 			"executions": st.Executions, "pruned_revisits": st.Pruned, "skipped_by_lookahead": st.Skipped, "states": st.States, "transitions": st.Transitions,
 			"distinct_outcomes": st.DistinctOutcomes, "deadlocks": st.Deadlocks, "exhaustive": st.Exhaustive, "wall_s": st.WallS,
